@@ -9,6 +9,7 @@ import (
 	"path/filepath"
 	"sort"
 	"strings"
+	"sync"
 	"time"
 
 	cloudstorage "cloud.google.com/go/storage"
@@ -21,6 +22,11 @@ const (
 
 type filestore struct {
 	gcsDir string
+
+	// mu makes each operation on an object atomic with respect to the others. An object is two
+	// files (content and metadata sidecar) written one after the other, so without it a reader
+	// could be served the new content with the old or no metadata.
+	mu sync.RWMutex
 }
 
 var _ Store = (*filestore)(nil)
@@ -56,7 +62,9 @@ func (fs *filestore) GetBucketMeta(baseUrl HttpBaseUrl, bucket string) (*storage
 }
 
 func (fs *filestore) Get(baseUrl HttpBaseUrl, bucket string, filename string) (*storage.Object, []byte, error) {
-	obj, err := fs.GetMeta(baseUrl, bucket, filename)
+	fs.mu.RLock()
+	defer fs.mu.RUnlock()
+	obj, err := fs.getMeta(baseUrl, bucket, filename)
 	if err != nil {
 		return nil, nil, err
 	}
@@ -74,6 +82,12 @@ func (fs *filestore) Get(baseUrl HttpBaseUrl, bucket string, filename string) (*
 }
 
 func (fs *filestore) GetMeta(baseUrl HttpBaseUrl, bucket string, filename string) (*storage.Object, error) {
+	fs.mu.RLock()
+	defer fs.mu.RUnlock()
+	return fs.getMeta(baseUrl, bucket, filename)
+}
+
+func (fs *filestore) getMeta(baseUrl HttpBaseUrl, bucket string, filename string) (*storage.Object, error) {
 	f := fs.filename(bucket, filename)
 	fInfo, err := os.Stat(f)
 	if err != nil {
@@ -84,10 +98,16 @@ func (fs *filestore) GetMeta(baseUrl HttpBaseUrl, bucket string, filename string
 	}
 
 	verifYield("fs.getmeta.stat-done")
-	return fs.ReadMeta(baseUrl, bucket, filename, fInfo)
+	return fs.readMeta(baseUrl, bucket, filename, fInfo)
 }
 
 func (fs *filestore) Add(bucket string, filename string, contents []byte, meta *storage.Object) error {
+	fs.mu.Lock()
+	defer fs.mu.Unlock()
+	return fs.add(bucket, filename, contents, meta)
+}
+
+func (fs *filestore) add(bucket string, filename string, contents []byte, meta *storage.Object) error {
 	f := fs.filename(bucket, filename)
 	if err := os.MkdirAll(filepath.Dir(f), 0777); err != nil {
 		return fmt.Errorf("could not create dirs for:  %s: %w", f, err)
@@ -117,6 +137,8 @@ func (fs *filestore) Add(bucket string, filename string, contents []byte, meta *
 }
 
 func (fs *filestore) UpdateMeta(bucket string, filename string, meta *storage.Object, metagen int64) error {
+	fs.mu.Lock()
+	defer fs.mu.Unlock()
 	InitScrubbedMeta(meta, filename)
 	meta.Metageneration = metagen
 
@@ -129,8 +151,10 @@ func (fs *filestore) UpdateMeta(bucket string, filename string, meta *storage.Ob
 }
 
 func (fs *filestore) Copy(srcBucket string, srcFile string, dstBucket string, dstFile string) (bool, error) {
+	fs.mu.Lock()
+	defer fs.mu.Unlock()
 	// Make sure it's there
-	meta, err := fs.GetMeta(dontNeedUrls, srcBucket, srcFile)
+	meta, err := fs.getMeta(dontNeedUrls, srcBucket, srcFile)
 	if err != nil {
 		return false, err
 	}
@@ -146,7 +170,7 @@ func (fs *filestore) Copy(srcBucket string, srcFile string, dstBucket string, ds
 		return false, err
 	}
 	meta.TimeCreated = "" // reset creation time on the dest file
-	err = fs.Add(dstBucket, dstFile, contents, meta)
+	err = fs.add(dstBucket, dstFile, contents, meta)
 	if err != nil {
 		return false, err
 	}
@@ -155,6 +179,8 @@ func (fs *filestore) Copy(srcBucket string, srcFile string, dstBucket string, ds
 }
 
 func (fs *filestore) Delete(bucket string, filename string) error {
+	fs.mu.Lock()
+	defer fs.mu.Unlock()
 	f := fs.filename(bucket, filename)
 
 	err := func() error {
@@ -202,6 +228,12 @@ func (fs *filestore) Delete(bucket string, filename string) error {
 }
 
 func (fs *filestore) ReadMeta(baseUrl HttpBaseUrl, bucket string, filename string, fInfo os.FileInfo) (*storage.Object, error) {
+	fs.mu.RLock()
+	defer fs.mu.RUnlock()
+	return fs.readMeta(baseUrl, bucket, filename, fInfo)
+}
+
+func (fs *filestore) readMeta(baseUrl HttpBaseUrl, bucket string, filename string, fInfo os.FileInfo) (*storage.Object, error) {
 	if fInfo.IsDir() {
 		return nil, nil
 	}
